@@ -342,7 +342,7 @@ class C14(Spec):
                      "Frame::is_free) and wall-clock bounds are observed by the stress runs only",
                      "certificates (classes, gates) are computed in python and only checked (inside Coq) - they are not trusted"]
     streams = [Stream("threads", "mt", ["Model.Locks", "Model.LocksRun"], None, gen_cases, oracle=oracle, rust_shards=4,
-                      post=post, post_runner="check_locks_case", shard=10, measure=measure)]
+                      post=post, post_runner="check_locks_case", shard=10, measure=measure, mem_gb_per_mb=0.4)]
 
     def known_class(self, k, case):
         return k.get("class") in case.meta.get("classes", [])
